@@ -45,6 +45,14 @@
     (KskmProofs/Lemmas/XmlDictEq.lean); `C12_attr_order` — and `request_from_xml` / `response_from_xml` return
     the SAME object (or raise the same error): the glue cannot tell `DictEq` values apart
     (`requestFromDict_congr` / `responseFromDict_congr`, KskmProofs/Lemmas/XmlGlueEq.lean).
+  * `C12_sibling_order` (section 8) — permuting the CHILD ELEMENTS of any elements of the document (keys,
+    signatures, signers, signature algorithms, bundles, and children with distinct names such as `Inception` /
+    `Expiration` or `RequestPolicy` / `RequestBundle`): the reader's results are `DictPerm` (equal up to the
+    order of the lists that collect same-named siblings: `C12_child_order_reader`), `request_from_xml` /
+    `response_from_xml` both raise or both return the same object up to the representation of `set` fields —
+    the bundle list position by position when ids are pairwise distinct (`SameRequest`) —, and
+    `validate_request` / `validate_response` / `load_ksr` / `load_skr` accept both or neither
+    (`C12_sibling_order_verdict`, `C12_sibling_order_load_ksr`, `C12_sibling_order_load_skr`).
   * `C12_reader_prolog` — "anything preceding the KSR element is ignored" for a GRAMMAR of prologs (XML
     declaration, processing instructions, comments, DOCTYPE, white space — none containing the four
     characters `<KSR`); `ksr_in_comment_counterexample`: a comment that does contain `<KSR` is not ignored.
@@ -55,6 +63,7 @@ import KskmProofs.Lemmas.XmlReader
 import KskmProofs.Lemmas.XmlReaderW
 import KskmProofs.Lemmas.XmlGlueEq
 import KskmProofs.Lemmas.XmlProlog
+import KskmProofs.Lemmas.XmlValidateSame
 namespace Kskm.C12
 open Kskm.Xml
 
